@@ -4,6 +4,8 @@
 # without the patch - the demo passes. Prints CONFIRMED or the reason it is not.
 set -u
 src=$1; demo=$2; pkg=$3; re=${4:-.}
+# SEED_WRAP="unshare -n" runs the demo inside a fresh network namespace (demos that build veth pairs)
+wrap=${SEED_WRAP:-}
 export GOFLAGS=-mod=mod GOPROXY=off GOSUMDB=off GOTOOLCHAIN=local
 wt=$(mktemp -d /tmp/seedverify.XXXXXX); rmdir "$wt"
 git -C /repo worktree add -q --detach "$wt" HEAD || exit 3
@@ -16,12 +18,12 @@ go build ./... || { echo "NOT-CONFIRMED: build fails"; exit 1; }
 if ! go test -vet=off -count=1 ./... > /tmp/seedverify.$$.log 2>&1; then echo "NOT-CONFIRMED: existing suite fails with the patch"; tail -20 /tmp/seedverify.$$.log; rm -f /tmp/seedverify.$$.log; exit 1; fi
 rm -f /tmp/seedverify.$$.log
 cp "$src/$demo" "$pkg/"
-if go test -vet=off -count=1 -run "$re" "./$pkg" > /tmp/seedverify.$$.with 2>&1; then echo "NOT-CONFIRMED: demo passes WITH the patch"; rm -f /tmp/seedverify.$$.with; exit 1; fi
+if $wrap go test -vet=off -count=1 -run "$re" "./$pkg" > /tmp/seedverify.$$.with 2>&1; then echo "NOT-CONFIRMED: demo passes WITH the patch"; rm -f /tmp/seedverify.$$.with; exit 1; fi
 grep -E "^(--- FAIL|FAIL|panic)" /tmp/seedverify.$$.with | head -3
 rm -f /tmp/seedverify.$$.with
 git apply -R "$src/patch.diff"
 for i in 1 2 3; do
-  if ! go test -vet=off -count=1 -run "$re" "./$pkg" > /tmp/seedverify.$$.without 2>&1; then echo "NOT-CONFIRMED: demo fails WITHOUT the patch"; tail -15 /tmp/seedverify.$$.without; rm -f /tmp/seedverify.$$.without; exit 1; fi
+  if ! $wrap go test -vet=off -count=1 -run "$re" "./$pkg" > /tmp/seedverify.$$.without 2>&1; then echo "NOT-CONFIRMED: demo fails WITHOUT the patch"; tail -15 /tmp/seedverify.$$.without; rm -f /tmp/seedverify.$$.without; exit 1; fi
 done
 rm -f /tmp/seedverify.$$.without
 echo "CONFIRMED: $src (suite passes with patch, demo fails with it and passes 3x without)"
